@@ -246,7 +246,7 @@ def base_env():
     return dict(_ENV_BASE)
 
 
-def run_text(text, cwd=None, fault=None, wlog=None, track=None, timeout=90, exe=None):
+def run_text(text, cwd=None, fault=None, wlog=None, track=None, timeout=90, exe=None, trace=None):
     env = base_env()
     if fault is not None:
         env["H4X_FAULT"] = fault
@@ -254,6 +254,8 @@ def run_text(text, cwd=None, fault=None, wlog=None, track=None, timeout=90, exe=
         env["H4X_WLOG"] = wlog
     if track:
         env["H4X_TRACK"] = track
+    if trace:
+        env["H4X_TRACE"] = trace
     rr = RunResult()
     try:
         p = subprocess.run([exe or H4X], input=text.encode("latin-1"), stdout=subprocess.PIPE,
@@ -283,9 +285,15 @@ def run(prog, **kw):
 _SCRATCH_ROOT = None
 
 
+_SCRATCH_PID = None
+
+
 def scratch_root():
-    global _SCRATCH_ROOT
+    global _SCRATCH_ROOT, _SCRATCH_PID
+    if _SCRATCH_ROOT is not None and _SCRATCH_PID != os.getpid():
+        _SCRATCH_ROOT = None        # forked worker: own scratch root (the parent removes its own at exit)
     if _SCRATCH_ROOT is None:
+        _SCRATCH_PID = os.getpid()
         base = os.environ.get("VERIF_TMP")
         if not base:
             base = "/dev/shm" if os.path.isdir("/dev/shm") and os.access("/dev/shm", os.W_OK) else \
@@ -293,7 +301,8 @@ def scratch_root():
         os.makedirs(base, exist_ok=True)
         _SCRATCH_ROOT = tempfile.mkdtemp(prefix="h4verif.%d." % os.getpid(), dir=base)
         import atexit
-        atexit.register(lambda: shutil.rmtree(_SCRATCH_ROOT, ignore_errors=True))
+        root, pid = _SCRATCH_ROOT, _SCRATCH_PID
+        atexit.register(lambda: os.getpid() == pid and shutil.rmtree(root, ignore_errors=True))
     return _SCRATCH_ROOT
 
 
